@@ -5,6 +5,8 @@
                 grouping rule forces it or the row no longer fits, and a row that is forced or no longer
                 fits (with rows already on the page) always breaks.  The same boolean check_assign is evaluated on the page membership
                 read back from the implementation's output.
+     C04_check_unique: conversely, when every row occupies at least one line, the greedy assignment is the ONLY page list
+                check_assign accepts - the predicate is a complete specification.
      C04_steps / C04_first: pages are numbered 1, 2, ... without gaps in row order (contiguous runs).
      C04_forced: a subline change, or a page_by change under new_page, always starts a new page.
      C04_fill: the accounting never overflows the available rows, except for a single-row page.
@@ -26,6 +28,16 @@ Theorem C04_check : forall nrow add np ms,
   check_assign (Z.max 1 (nrow - add)) np ms (assign_pages nrow add np ms) = true.
 Proof. exact assign_satisfies_check. Qed.
 Print Assumptions C04_check.
+
+(* check_assign is a complete specification of the page list when every row occupies at least one line: the only
+   assignment it accepts is the greedy loop's.  So the predicate evaluated on the implementation's output decides,
+   given the row metadata, the whole of its pagination. *)
+Theorem C04_check_unique : forall nrow add np ms pages,
+  Forall (fun m => 0 < rm_total m) ms ->
+  check_assign (Z.max 1 (nrow - add)) np ms pages = true ->
+  pages = assign_pages nrow add np ms.
+Proof. exact check_assign_unique. Qed.
+Print Assumptions C04_check_unique.
 
 Theorem C04_steps : forall nrow add np ms, steps_from 1 (assign_pages nrow add np ms).
 Proof. exact assign_steps. Qed.
